@@ -263,5 +263,261 @@ def strainG (mag : V3 K → K) (cosMax big : K) (c0 c1 : Cell K) (pos0 pos1 : Na
     (nbrs0 nbrs1 : List Nat) (i : Nat) : M3 K :=
   solveG mag cosMax big (nbrVectors c0 pos0 nbrs0 i) (nbrVectors c1 pos1 nbrs1 i)
 
+
+/-! ### p vectors given directly: `Strain.set_p_vectors(p_vectors, axes)` / `nye_tensor(system, p_vectors, axes=)` -/
+
+/-- `np.inner(p_vectors, axes_check(axes))`: every p vector `p` becomes `T p` (`T` = the unit axes as rows),
+    for a shared set and for per-atom sets alike. -/
+def transformP (T : M3 K) (ps : List (V3 K)) : List (V3 K) := ps.map (M3.mulVec T)
+
+/-- what the caller hands over: one array of 3-vectors, or a sequence of such arrays. -/
+inductive PArg (K : Type) where
+  | flat (ps : List (V3 K))
+  | nested (pss : List (List (V3 K)))
+
+/-- the broadcasting rule of `set_p_vectors` (`len == 1`: the single entry for all atoms; `len != natoms`: the
+    whole array for all atoms; otherwise entry `i` for atom `i`, a bare 3-vector becoming a one-vector set).
+    `none` = numpy cannot broadcast (`ValueError`). -/
+def dispatchP (n : Nat) : PArg K → Option (Nat → List (V3 K))
+  | .flat ps =>
+    if ps.length = 1 then some (fun _ => ps ++ ps ++ ps)
+    else if ps.length ≠ n then some (fun _ => ps)
+    else some (fun i => match ps[i]? with | some v => [v] | none => [])
+  | .nested pss =>
+    if pss.length = 1 then some (fun _ => pss.headD [])
+    else if pss.length ≠ n then none
+    else some (fun i => pss.getD i [])
+
+/-- `set_p_vectors`: broadcasting, then the optional `axes` transformation. -/
+def givenP (n : Nat) (arg : PArg K) (axes : Option (M3 K)) : Option (Nat → List (V3 K)) :=
+  match dispatchP n arg, axes with
+  | none, _ => none
+  | some pv, none => some pv
+  | some pv, some T => some (fun i => transformP T (pv i))
+
+/-! ### the `Strain` object: inputs, cached derived quantities, operations -/
+
+/-- everything `solve_G` / `solve_nye` read: the system (held by reference: in-place edits of the positions are
+    seen), its neighbour list, the p vectors (`None` until set), `theta_max` and its cosine (`cos` is external:
+    the pair is supplied together). -/
+structure SIn (K : Type) where
+  cell : Cell K
+  n : Nat
+  pos : Nat → V3 K
+  nlist : Nat → List Nat
+  pvec : Option (Nat → List (V3 K))
+  theta : K
+  cosT : K
+
+/-- the cached per-atom quantities of a `Strain` object. -/
+inductive SProp where
+  | G | strain | inv1 | inv2 | inv3 | rotation | angvel2 | nye
+deriving DecidableEq, Repr
+
+inductive Payload (K : Type) where
+  | mats (l : List (M3 K))
+  | nums (l : List K)
+
+structure SObj (K : Type) where
+  inp : SIn K
+  cache : SProp → Option (Payload K)
+
+def setCache (c : SProp → Option (Payload K)) (p : SProp) (v : Payload K) : SProp → Option (Payload K) :=
+  fun q => if q = p then some v else c q
+
+/-- `strain_c`, `rotation_c`, `invariant1_c..3_c`, `angularvelocity_c` (its square) applied to a whole array. -/
+def fStrain : Payload K → Payload K
+  | .mats g => .mats (g.map strain)
+  | .nums _ => .nums []
+def fRotation : Payload K → Payload K
+  | .mats g => .mats (g.map rotation)
+  | .nums _ => .nums []
+def fInv1 : Payload K → Payload K
+  | .mats s => .nums (s.map invariant1)
+  | .nums _ => .nums []
+def fInv2 : Payload K → Payload K
+  | .mats s => .nums (s.map invariant2)
+  | .nums _ => .nums []
+def fInv3 : Payload K → Payload K
+  | .mats s => .nums (s.map invariant3)
+  | .nums _ => .nums []
+def fAngvel2 : Payload K → Payload K
+  | .mats r => .nums (r.map angularVelocitySq)
+  | .nums _ => .nums []
+
+section sobj
+variable (mag : V3 K → K) (big : K)
+
+/-- the loop of `solve_G` over all atoms. -/
+def SIn.computeG (a : SIn K) (pv : Nat → List (V3 K)) : List (M3 K) :=
+  (List.range a.n).map fun i => solveG mag a.cosT big (pv i) (nbrVectors a.cell a.pos (a.nlist i) i)
+
+/-- the loop of `solve_nye` over all atoms, from a given `G` array. -/
+def SIn.computeNye (a : SIn K) (G : List (M3 K)) : List (M3 K) :=
+  (List.range a.n).map fun i => nye a.cell a.pos (fun j => G.getD j zeroM) (a.nlist i) i
+
+def SIn.fNye (a : SIn K) : Payload K → Payload K
+  | .mats g => .mats (a.computeNye g)
+  | .nums _ => .nums []
+
+/-- `Strain(...)` right after construction / `clear_properties()`: nothing cached. -/
+def SObj.fresh (a : SIn K) : SObj K := ⟨a, fun _ => none⟩
+def SObj.clear (o : SObj K) : SObj K := ⟨o.inp, fun _ => none⟩
+
+/-- the `theta_max` setter: values outside `(0, 180]` are ignored; nothing is cleared. -/
+def SObj.setTheta (o : SObj K) (v c : K) : SObj K :=
+  if v ≤ ((180 : Nat) : K) ∧ 0 < v then { o with inp := { o.inp with theta := v, cosT := c } } else o
+
+/-- `set_p_vectors` / `build_p_vectors`: the reference is replaced; nothing is cleared. -/
+def SObj.setP (o : SObj K) (pv : Nat → List (V3 K)) : SObj K := { o with inp := { o.inp with pvec := some pv } }
+
+/-- an in-place edit of the positions of the system the object refers to. -/
+def SObj.setPos (o : SObj K) (pos : Nat → V3 K) : SObj K := { o with inp := { o.inp with pos := pos } }
+
+/-- `solve_G(theta_max=th)`: refuses without p vectors (before anything changes); otherwise sets `theta_max`
+    when given, clears **all** cached quantities and stores the new `G`. -/
+def SObj.solve (o : SObj K) (th : Option (K × K)) : SObj K × Bool :=
+  match o.inp.pvec with
+  | none => (o, false)
+  | some pv =>
+    let o1 := match th with
+      | some vc => o.setTheta vc.1 vc.2
+      | none => o
+    (⟨o1.inp, setCache (fun _ => none) .G (.mats (o1.inp.computeG mag big pv))⟩, true)
+
+/-- a property computed from the value of another one and then cached. -/
+def derived (f : Payload K → Payload K) (p : SProp) (parent : SObj K × Option (Payload K)) :
+    SObj K × Option (Payload K) :=
+  match parent.2 with
+  | some v => let w := f v; (⟨parent.1.inp, setCache parent.1.cache p w⟩, some w)
+  | none => (parent.1, none)
+
+/-- the `G` property: cached value, else `solve_G()`. -/
+def SObj.getG (o : SObj K) : SObj K × Option (Payload K) :=
+  match o.cache .G with
+  | some v => (o, some v)
+  | none => let r := o.solve mag big none; (r.1, r.1.cache .G)
+
+def SObj.getStrain (o : SObj K) : SObj K × Option (Payload K) :=
+  match o.cache .strain with
+  | some v => (o, some v)
+  | none => derived fStrain .strain (o.getG mag big)
+
+def SObj.getRotation (o : SObj K) : SObj K × Option (Payload K) :=
+  match o.cache .rotation with
+  | some v => (o, some v)
+  | none => derived fRotation .rotation (o.getG mag big)
+
+/-- reading a property (`None` in the second component = the `ValueError` of `solve_G` without p vectors). -/
+def SObj.read (o : SObj K) : SProp → SObj K × Option (Payload K)
+  | .G => o.getG mag big
+  | .strain => o.getStrain mag big
+  | .rotation => o.getRotation mag big
+  | .inv1 => match o.cache .inv1 with
+    | some v => (o, some v)
+    | none => derived fInv1 .inv1 (o.getStrain mag big)
+  | .inv2 => match o.cache .inv2 with
+    | some v => (o, some v)
+    | none => derived fInv2 .inv2 (o.getStrain mag big)
+  | .inv3 => match o.cache .inv3 with
+    | some v => (o, some v)
+    | none => derived fInv3 .inv3 (o.getStrain mag big)
+  | .angvel2 => match o.cache .angvel2 with
+    | some v => (o, some v)
+    | none => derived fAngvel2 .angvel2 (o.getRotation mag big)
+  | .nye => match o.cache .nye with
+    | some v => (o, some v)
+    | none => derived o.inp.fNye .nye (o.getG mag big)
+
+/-- a sequence of reads on one object: final object and the replies in order. -/
+def SObj.reads (o : SObj K) : List SProp → SObj K × List (Option (Payload K))
+  | [] => (o, [])
+  | p :: ps =>
+    let r := o.read mag big p
+    let rest := SObj.reads r.1 ps
+    (rest.1, r.2 :: rest.2)
+
+/-- what a property is *as a function of the current inputs alone*. -/
+def SIn.valG (a : SIn K) : Option (Payload K) := a.pvec.map fun pv => .mats (a.computeG mag big pv)
+def SIn.valStrain (a : SIn K) : Option (Payload K) := (a.valG mag big).map fStrain
+def SIn.valRotation (a : SIn K) : Option (Payload K) := (a.valG mag big).map fRotation
+def SIn.val (a : SIn K) : SProp → Option (Payload K)
+  | .G => a.valG mag big
+  | .strain => a.valStrain mag big
+  | .rotation => a.valRotation mag big
+  | .inv1 => (a.valStrain mag big).map fInv1
+  | .inv2 => (a.valStrain mag big).map fInv2
+  | .inv3 => (a.valStrain mag big).map fInv3
+  | .angvel2 => (a.valRotation mag big).map fAngvel2
+  | .nye => (a.valG mag big).map a.fNye
+
+end sobj
+
+/-! ### the `DifferentialDisplacement` object -/
+
+structure Sys (K : Type) where
+  cell : Cell K
+  n : Nat
+  pos : Nat → V3 K
+
+structure DObj (K : Type) where
+  sys0 : Sys K
+  sys1 : Sys K
+  reference : Nat
+  nlist : Option (List (List Nat))
+  dd : Option (List (V3 K))
+
+/-- the optional arguments of `solve`; `cutoff` carries the two lists `system0` resp. `system1` would get from
+    `neighborlist(cutoff=)` (building them is property C03), the model picks by `reference`. -/
+structure DArgs (K : Type) where
+  sys0 : Option (Sys K)
+  sys1 : Option (Sys K)
+  neighbors : Option (List (List Nat))
+  cutoff : Option (List (List Nat) × List (List Nat))
+  reference : Option Nat
+
+inductive DErr where
+  | assert | value
+deriving DecidableEq, Repr
+
+/-- `DifferentialDisplacement.solve(system0, system1, neighbors, cutoff, reference)`: every argument left out is
+    taken from the object; given ones are stored (systems first, then `reference`, then the list) even when a later
+    step refuses. -/
+def DObj.solve (o : DObj K) (a : DArgs K) : DObj K × Option DErr :=
+  let s0 := a.sys0.getD o.sys0
+  let s1 := a.sys1.getD o.sys1
+  let o1 : DObj K := { o with sys0 := s0, sys1 := s1 }
+  if s0.n ≠ s1.n then (o1, some .assert) else
+  let ref? : Option Nat := match a.reference with
+    | none => some o.reference
+    | some r => if r = 0 ∨ r = 1 then some r else none
+  match ref? with
+  | none => (o1, some .assert)
+  | some r =>
+    let o2 : DObj K := { o1 with reference := r }
+    let nl? : Option (List (List Nat)) := match a.neighbors with
+      | some nl => some nl
+      | none => match a.cutoff with
+        | some ll => some (if r = 0 then ll.1 else ll.2)
+        | none => o.nlist
+    match nl? with
+    | none => (o2, some .value)
+    | some nl =>
+      let o3 : DObj K := { o2 with nlist := some nl }
+      if nl.all (·.isEmpty) then (o3, some .value)
+      else ({ o3 with dd := some (ddvectors s0.cell s1.cell s0.pos s1.pos nl) }, none)
+
+/-- the constructor: with `neighbors` or `cutoff` it is `solve` (an exception leaves no object), otherwise only
+    the systems and `reference` are stored. -/
+def DObj.init (s0 s1 : Sys K) (neighbors : Option (List (List Nat)))
+    (cutoff : Option (List (List Nat) × List (List Nat))) (reference : Nat) : Option (DObj K) :=
+  if neighbors.isSome || cutoff.isSome then
+    let r := DObj.solve ⟨s0, s1, reference, none, none⟩ ⟨some s0, some s1, neighbors, cutoff, some reference⟩
+    match r.2 with
+    | none => some r.1
+    | some _ => none
+  else if s0.n ≠ s1.n then none
+  else if reference = 0 ∨ reference = 1 then some ⟨s0, s1, reference, none, none⟩ else none
+
 end
 end Atomman.C17
